@@ -39,6 +39,7 @@ type gen struct {
 	prog  Prog
 	asks  int
 	constIdx bool // index operands must be constants (inside generated functions)
+	inBody   bool // generating a statement of a loop body
 	ill   []string // protocol lines on which the model reported an ill-typed operation (generator bugs)
 }
 
@@ -227,7 +228,7 @@ func (g *gen) rexp(t *Type, ctx string) *RExp {
 	case "map":
 		return &RExp{K: "mkm", T: t.Src}
 	case "ptr":
-		if t.Elem.K == "int" || t.Elem.K == "ptr" || t.Elem.K == "slice" || t.Elem.K == "map" {
+		if t.Elem.K == "int" || t.Elem.K == "ptr" || t.Elem.K == "slice" || t.Elem.K == "map" || (t.Elem.K == "array" && g.inBody) {
 			return nil // no composite literal to take the address of
 		}
 		return &RExp{K: "new", T: t.Src, V: ptrVal(g.litVal(t.Elem))}
@@ -245,9 +246,9 @@ func (g *gen) litAllowed(t *Type, ctx string) bool {
 	}
 	switch ctx {
 	case "single-var":
-		return t.K != "struct" || g.allow["struct-lit-assign"]
+		return true // struct literals to plain variables: in the domain since commit 3590fb8 of the repository (was F04-2)
 	case "multi-var", "multidef":
-		return g.allow["multi-shortcut"]
+		return true // calls and literals in multiple assignments: in the domain since commit 647e2cf of the repository (was finding F04-1)
 	case "define-body":
 		return t.K == "struct" || g.allow["define-lit-in-loop"]
 	}
@@ -255,9 +256,6 @@ func (g *gen) litAllowed(t *Type, ctx string) bool {
 }
 
 func (g *gen) callAllowed(ctx string) bool {
-	if ctx == "multi-var" || ctx == "multi" {
-		return g.allow["multi-shortcut"]
-	}
 	return true
 }
 
@@ -288,7 +286,9 @@ func (g *gen) rexp1(t *Type, ctx string) *RExp {
 			}
 			return r
 		case "ptr":
-			if g.chance(0.5) && (t.Elem.K == "struct" || t.Elem.K == "array") {
+			// `&[n]T{…}` evaluated again in a later iteration yields the same pointer (listed finding F04-11, source
+			// replay; the model has no notion of the literal's own slot), so loop bodies only take `&T{…}` of structs
+			if g.chance(0.5) && (t.Elem.K == "struct" || (t.Elem.K == "array" && !g.inBody)) {
 				return &RExp{K: "new", T: t.Src, V: ptrVal(g.litVal(t.Elem))}
 			}
 			if c := g.loc(t.Elem); c != nil && g.adrOK(c.l) {
@@ -408,6 +408,8 @@ func (g *gen) intPath(t *Type, root *LExp, depth int) *LExp {
 }
 
 func (g *gen) sop(inBody bool) *SOp {
+	g.inBody = inBody
+	defer func() { g.inBody = false }()
 	defCtx := "define"
 	if inBody {
 		defCtx = "define-body"
@@ -537,9 +539,10 @@ func (g *gen) sop(inBody bool) *SOp {
 		}
 		m := ok[g.pick(len(ok))]
 		o := &SOp{K: "lk2", M: m.l, Ke: &IExp{N: 1 + g.pick(4)}, T: m.t.Elem.Src}
-		if (inBody || g.chance(0.5)) && g.allow["lookup2-stale"] {
+		if inBody || g.chance(0.5) {
 			if inBody && g.chance(0.6) {
-				if len(g.e) > 9 {
+				// a comma-ok declaration in a loop body: no new variable per iteration (listed class)
+				if len(g.e) > 9 || !g.allow["lookup2-define-in-loop"] {
 					return nil
 				}
 				o.IsDef, o.X, o.Ok = true, g.fresh(), g.fresh()
@@ -602,7 +605,7 @@ func (g *gen) multi() *SOp {
 				o.Rs = []RExp{{K: "ld", T: a.t.Src, L: b.l}, {K: "ld", T: a.t.Src, L: c.l}, {K: "ld", T: a.t.Src, L: a.l}}
 			}
 		}
-		if g.allow["multi-shortcut"] && g.chance(0.5) {
+		if g.chance(0.3) {
 			i := g.pick(len(o.Rs))
 			o.Rs[i] = RExp{K: "id", T: o.Rs[i].T, A: &RExp{K: "ld", T: o.Rs[i].T, L: o.Rs[i].L}}
 		}
@@ -665,7 +668,7 @@ func (g *gen) multidef(inBody bool) *SOp {
 	o := &SOp{K: "muld"}
 	n := 2 + g.pick(2)
 	redecl := -1
-	if !inBody && (g.allow["multidefine-redeclared"] || g.allow["multidefine-sequential"]) && len(g.pool) > 0 {
+	if !inBody && g.allow["multidefine-redeclared"] && len(g.pool) > 0 {
 		redecl = g.pick(n - 1)
 	}
 	for i := 0; i < n; i++ {
@@ -688,8 +691,8 @@ func (g *gen) multidef(inBody bool) *SOp {
 			continue
 		}
 		t := ty(poolTypes[g.pick(len(poolTypes))])
-		if redecl >= 0 && i > redecl && g.allow["multidefine-sequential"] && g.chance(0.7) {
-			// F21: a later right-hand side IS the redeclared variable
+		if redecl >= 0 && i > redecl && g.chance(0.5) {
+			// the F21 shape (repaired by 3e30c22): a later right-hand side IS the redeclared variable
 			t = ty(o.Ts[redecl])
 			o.Xs, o.Rd, o.Ts = append(o.Xs, g.fresh()), append(o.Rd, false), append(o.Ts, t.Src)
 			o.Rs = append(o.Rs, RExp{K: "ld", T: t.Src, L: &LExp{K: "v", X: o.Xs[redecl]}})
